@@ -494,3 +494,137 @@ pub fn craft_exact(n: usize, target: i64, style: u32, rng: &mut ChaCha20Rng) -> 
     }
     None
 }
+
+/// Build a triple from fully specified (s1, s2): h = (c - s1)/s2. None if s2 is not invertible.
+pub fn craft_from(n: usize, s1: Vec<i64>, s2: Vec<i64>, rng: &mut ChaCha20Rng) -> Option<Crafted> {
+    let psi = spec::find_psi(n);
+    let s2hat = spec::dft_q(&s2, psi);
+    if s2hat.iter().any(|&x| x == 0) || s1.iter().any(|x| x.abs() > 6144) {
+        return None;
+    }
+    let mut salt = vec![0u8; 40];
+    rng.fill_bytes(&mut salt);
+    let msg = rand_bytes(rng, 12);
+    let mut rm = salt.clone();
+    rm.extend_from_slice(&msg);
+    let c = spec::hash_to_point(&rm, n);
+    let num: Vec<i64> = (0..n).map(|i| spec::modq(c[i] - s1[i])).collect();
+    let numhat = spec::dft_q(&num, psi);
+    let hhat: Vec<i64> = (0..n).map(|i| numhat[i] * spec::powm(s2hat[i], spec::Q - 2) % spec::Q).collect();
+    let h = spec::idft_q(&hhat, psi);
+    let norm: i64 = s1.iter().map(|x| x * x).sum::<i64>() + s2.iter().map(|x| x * x).sum::<i64>();
+    Some(Crafted { msg, salt, s2, s1, h, norm })
+}
+
+/// Triples whose TRUE squared norm is enormous but congruent to a small value modulo 2^31 or
+/// 2^32 (an accumulator of the wrong width would see a norm inside the bound), with the mass
+/// laid out in different ways: spread evenly, concentrated in one aligned block of `w`
+/// coefficients, or two-step (a first region just below 2^31, then one aligned block that
+/// alone adds more than 2^31, so that a width check sampled once per block is jumped over).
+/// Returns (layout name, triple). `bound` is the variant's acceptance bound.
+pub fn overflow_layouts(n: usize, bound: i64, rng: &mut ChaCha20Rng) -> Vec<(String, Crafted)> {
+    let l = if n == 512 { 625 } else { 1239 };
+    let spare = 8 * l - 9 * n - 4; // unary bits available for large s2 coefficients
+    let mut out = vec![];
+    let big = 6144i64 * 6144;
+    // helper: finish a template (s1 with some zeros reserved at `free`) so that the total is T
+    let finish = |mut s1: Vec<i64>, s2: &Vec<i64>, free: [usize; 4], t: i64| -> Option<Vec<i64>> {
+        let cur: i64 = s1.iter().map(|x| x * x).sum::<i64>() + s2.iter().map(|x| x * x).sum::<i64>();
+        let rem = t - cur;
+        if rem < 0 || rem > 4 * big {
+            return None;
+        }
+        let r4 = four_squares(rem)?;
+        for (k, &i) in free.iter().enumerate() {
+            s1[i] = r4[k];
+        }
+        Some(s1)
+    };
+    for &(modulus, mname) in &[(1i64 << 32, "2^32"), (1i64 << 31, "2^31"), (3i64 << 32, "3*2^32")] {
+        for layout in 0..4 {
+            let r = rng.gen_range(0..bound);
+            let t = modulus + r; // true norm; wraps to r <= bound in a too-narrow accumulator
+            // small dense s2 so that it is invertible; a few huge coefficients in some layouts
+            let mut s2: Vec<i64> = (0..n).map(|_| rng.gen_range(-40i64..=40)).collect();
+            let mut s1 = vec![0i64; n];
+            let name;
+            match layout {
+                0 => {
+                    // spread: as many +-6144 as fit below t, evenly over the vector
+                    name = "spread";
+                    let m = ((t - 5 * big) / big).max(0) as usize;
+                    let step = n as f64 / (m.max(1) as f64);
+                    for k in 0..m.min(n - 8) {
+                        let i = ((k as f64 * step) as usize).min(n - 9);
+                        if s1[i] == 0 {
+                            s1[i] = if rng.gen() { 6144 } else { -6144 };
+                        }
+                    }
+                }
+                1 => {
+                    name = "front-loaded";
+                    let m = ((t - 5 * big) / big).max(0) as usize;
+                    for i in 0..m.min(n - 8) {
+                        s1[i] = if rng.gen() { 6144 } else { -6144 };
+                    }
+                }
+                2 => {
+                    name = "back-loaded";
+                    let m = ((t - 5 * big) / big).max(0) as usize;
+                    for i in 0..m.min(n - 8) {
+                        s1[n - 9 - i] = if rng.gen() { 6144 } else { -6144 };
+                    }
+                }
+                _ => {
+                    // two-step: region A just below 2^31, then one aligned block of width w whose
+                    // own mass exceeds 2^31 (s1 at the edge of its range plus huge s2 coefficients)
+                    name = "two-step-block";
+                    let w = *[16usize, 32, 64].get(rng.gen_range(0..3)).unwrap();
+                    let a = 56usize.min(n / 4); // 56 * 6144^2 = 2.114e9 < 2^31
+                    for i in 0..a {
+                        s1[i] = 6144;
+                    }
+                    let blocks = n / w;
+                    let b0 = w * rng.gen_range((a / w + 1)..blocks - 1);
+                    for i in b0..b0 + w {
+                        s1[i] = -6144;
+                    }
+                    let nbig = (spare / 94).min(w).min(7);
+                    for k in 0..nbig {
+                        s2[b0 + k] = 12100 + rng.gen_range(0..59);
+                    }
+                }
+            }
+            // four free slots at the very end for the exact adjustment
+            let free = [n - 8, n - 7, n - 6, n - 5];
+            for &i in &free {
+                s1[i] = 0;
+            }
+            let cur: i64 = s1.iter().map(|x| x * x).sum::<i64>() + s2.iter().map(|x| x * x).sum::<i64>();
+            // move t up by multiples of the modulus until the template fits below it
+            let mut tt = t;
+            while tt < cur {
+                tt += modulus;
+            }
+            // fill with more maxima (in unused slots before the free ones) until within reach
+            let mut s1f = s1.clone();
+            let mut c2 = cur;
+            let mut i = n - 9;
+            while tt - c2 > 4 * big && i > 0 {
+                if s1f[i] == 0 {
+                    s1f[i] = 6144;
+                    c2 += big;
+                }
+                i -= 1;
+            }
+            if let Some(s1done) = finish(s1f, &s2, free, tt) {
+                if spec::compress(&s2, l).is_some() {
+                    if let Some(c) = craft_from(n, s1done, s2.clone(), rng) {
+                        out.push((format!("{}-mod-{}", name, mname), c));
+                    }
+                }
+            }
+        }
+    }
+    out
+}
